@@ -10,8 +10,8 @@ from vp import core, gen
 PROP_ID = 'C11'
 LEVEL = 'exploration'
 BUDGET = {'quick': 3000, 'thorough': 60000}
-RULE = ('Histories on frames with df*dt in [n-0.45, n+0.45], n = 1..10 (so the rounding of the degrees of freedom is '
-        'exercised away from ties): Hypothesis draws 1..5 ops from add_noise(chi2 | gaussian | truncated gaussian), '
+RULE = ('Histories on frames with df*dt in [n-0.45, n+0.45], n = 1..10, plus exactly representable half-integers (where the '
+        'statement\'s round() is read as Python\'s round-half-to-even): Hypothesis draws 1..5 ops from add_noise(chi2 | gaussian | truncated gaussian), '
         'add_noise_from_obs(own tables of 1..12 distinct entries | the shipped table, share_index on/off, three noise '
         'types) and zero_data. Deterministic oracles after every op: data_after == data_before + returned exactly; '
         'truncated noise >= floor (and the floor is attained, identifying the table entry); the first noise on an empty '
@@ -26,7 +26,7 @@ RULE = ('Histories on frames with df*dt in [n-0.45, n+0.45], n = 1..10 (so the r
 ASSUMPTIONS = ['expected false-alarm rate of the 6.5-sigma bands < 1e-6 per run; mutations of interest (k +- 4, variance formula) lie > 12 sigma away for k <= 40',
                'own tables have means > deviations (the library raises the mean to the deviation otherwise)', 'no bit-equality with a particular RNG call pattern is required']
 REQUIRED_CLASSES = ['stat_chi2', 'stat_gauss', 'stat_second_addition', 'obs_own_tables', 'obs_shipped', 'share_index', 'no_share_index',
-                    'truncated', 'zero_data', 'streams', 'dfdt=1', 'dfdt>=5']
+                    'truncated', 'zero_data', 'streams', 'dfdt=1', 'dfdt>=5', 'dfdt_exact_tie']
 
 OBS_DT = 1.4316557653333333
 
@@ -34,10 +34,17 @@ OBS_DT = 1.4316557653333333
 @st.composite
 def strategy_(draw, tier):
     n = draw(st.integers(1, 10))
-    prod = n + draw(gen.finite(-0.45, 0.45))
-    dt = draw(st.sampled_from([18.253611008, 1.0, 0.5, 3.3]))
+    tie = draw(st.integers(0, 7)) == 0
+    if tie:
+        # exactly representable half-integers: round() in the statement is Python's (half to even)
+        prod = n + 0.5
+        dt = draw(st.sampled_from([1.0, 0.5, 2.0, 0.25]))
+        n = round(prod)
+    else:
+        prod = n + draw(gen.finite(-0.45, 0.45))
+        dt = draw(st.sampled_from([18.253611008, 1.0, 0.5, 3.3]))
     df = prod / dt
-    stat = draw(st.sampled_from([None, None, 'chi2', 'gauss', 'second']))
+    stat = None if tie else draw(st.sampled_from([None, None, 'chi2', 'gauss', 'second']))
     if stat:
         shape = (64, 512)
     else:
@@ -47,11 +54,12 @@ def strategy_(draw, tier):
     stds = draw(st.lists(gen.finite(0.1, 4.9), min_size=nt, max_size=nt, unique=True))
     ops = draw(st.lists(st.one_of(
         st.fixed_dictionaries({'op': st.just('add_noise'), 'type': st.sampled_from(['chi2', 'gaussian', 'normal', 'trunc']),
-                               'mean': gen.finite(1.0, 1e3), 'std': gen.finite(0.1, 50.0), 'floor_z': gen.finite(-1.0, 1.0)}),
+                               'mean': st.one_of(gen.finite(1.0, 1e3), gen.finite(1e-12, 1e-6)),
+                               'std': st.one_of(gen.finite(0.1, 50.0), gen.finite(1e-12, 1e-7)), 'floor_z': gen.finite(-1.0, 1.0)}),
         st.fixed_dictionaries({'op': st.just('from_obs'), 'tables': st.sampled_from(['own', 'own', 'shipped']),
                                'type': st.sampled_from(['chi2', 'gaussian', 'trunc']), 'share': st.booleans()}),
         st.fixed_dictionaries({'op': st.just('zero_data')})), min_size=1, max_size=5))
-    return dict(n=n, df=df, dt=dt, shape=list(shape), stat=stat, seed=draw(st.integers(0, 2 ** 31 - 1)),
+    return dict(n=n, tie=tie, df=df, dt=dt, shape=list(shape), stat=stat, seed=draw(st.integers(0, 2 ** 31 - 1)),
                 means=means, stds=stds, ops=ops,
                 stat_mean=draw(gen.finite(1.0, 100.0)), stat_std=draw(gen.finite(0.5, 20.0)),
                 stat_std2=draw(gen.finite(0.5, 20.0)), ascending=draw(st.booleans()),
@@ -69,6 +77,8 @@ def run_case(case, ctx):
     T, N = case['shape']
     k = 4 * case['n']
     obs.cls('dfdt=1' if case['n'] == 1 else ('dfdt>=5' if case['n'] >= 5 else 'dfdt=2..4'))
+    if case.get('tie'):
+        obs.cls('dfdt_exact_tie')
     ok, fr = core.call(obs, 'construct', stg.Frame, fchans=N, tchans=T, df=case['df'], dt=case['dt'], fch1=6e9,
                        ascending=case['ascending'], seed=case['seed'], t_start=0.0)
     if not ok:
@@ -248,6 +258,12 @@ def run_history(obs, stg, fr, case, k):
             obs.fail(f'returned_is_added:{"first" if empty else "later"}', f'{int(np.sum(fr.data != before + noise))} pixels')
         if floor is not None and np.min(noise) < floor:
             obs.fail('floor_violated', f'{np.min(noise)} < {floor}')
+        if not empty:
+            from astropy.stats import sigma_clip
+            cl = sigma_clip(fr.data, sigma=3, maxiters=5, masked=False)
+            want = (float(np.mean(cl)), float(np.std(cl)))
+            if abs(fr.noise_mean - want[0]) > 1e-9 * max(abs(want[0]), 1e-300) or abs(fr.noise_std - want[1]) > 1e-9 * max(abs(want[1]), 1e-300):
+                obs.fail('later_noise_reestimates_stats', f'{fr.noise_mean!r},{fr.noise_std!r} vs sigma-clipped {want} (stats before: non-zero)')
         if empty and exp_stats is not None:
             if not (fr.noise_mean == exp_stats[0] and abs(fr.noise_std - exp_stats[1]) <= 1e-12 * abs(exp_stats[1])):
                 obs.fail(f'first_noise_sets_stats:{o.get("type")}', f'{fr.noise_mean},{fr.noise_std} vs {exp_stats}')
